@@ -177,6 +177,10 @@ def applyBackward (s : State) : Change → Option Delta
   | .fundingConfirmed op =>
     if s.fundingHeight = some s.height then
       some ({ s with fundingHeight := none, fundingOutpoint := none }, [op], [])
+    -- a monitor created after the block that confirmed its funding tx never recorded the confirmation:
+    -- the code as it stands asserts (finding F18); the proposed fix undoes nothing
+    -- (`Gen.Chain.fundingUndoTolerant`, read from the source)
+    else if VlsModel.Gen.Chain.fundingUndoTolerant && s.fundingHeight.isNone then some (s, [op], [])
     else none
   | .fundingInputSpent op =>
     some ({ s with dsHeight := if s.dsHeight = some s.height then none else s.dsHeight }, [], [op])
